@@ -383,7 +383,9 @@ fn define_trait_impl(
         }
     }
 
-    for method_name in trait_method_names.iter() {
+    // Report in declaration order: `trait_method_names` is a HashSet and iterates differently
+    // in every process.
+    for method_name in trait_def.methods.keys() {
         if !implemented_methods.contains(method_name) {
             diagnostics.push(Diagnostic::new(
                 Stage::Typer,
